@@ -19,7 +19,6 @@ from vlib import sqlo
 PROP = 'C18'
 HERE = os.path.dirname(os.path.dirname(os.path.abspath(__file__)))
 
-KEY_PORTNOHOST = 'C18:generic:port-without-host'
 KEY_SLASHMEM = 'C18:sqlite:/:memory:'
 
 META = {
@@ -28,14 +27,14 @@ META = {
                   'delimiter-freeness of quoted text for the urlsplit model) + extracted literals/safe sets/skeleton of '
                   'uri() + differential correspondence of builders, urlparse model and _parseURI'),
     'level_text': ('Theorems C18_unquote_quote (every string, every safe set without %), C18_sqlite_parse_build / '
-                   'C18_sqlite_open_partial (every absolute file name and :memory:), C18_parse_build_partial (every user, '
-                   'password, db; host without URI delimiters and lower-case; port absent or 0..65535) and '
-                   'C18_bad_port_rejected (every non-numeric or > 65535 port text) about a model whose literals, safe= '
+                   'C18_sqlite_open_partial (every absolute file name and :memory:), C18_parse_build (every user, '
+                   'password, db; host without URI delimiters, lower-case, IPv6 literals included; port absent/0 or 1..65535) and '
+                   'C18_bad_port_rejected / C18_bad_port_built_rejected (every non-numeric, negative or > 65535 port) about a model whose literals, safe= '
                    'arguments and statement skeleton are regenerated from /repo on every run and whose urllib/_parseURI part '
                    'is compared with the real code on built and on hostile raw URIs.'),
     'level_note': ('Trusted: Lean kernel; extractor vlib/extractors/uri.py; the hand-written model of CPython 3.12 '
                    'urllib.parse (quote, unquote, urlsplit/urlparse, parse_qsl, UTF-8 replace-decoding), tied by sampling. '
-                   'FALSE-witness theorems: port without host, sqlite file "/:memory:".'),
+                   'FALSE-witness theorem: sqlite file "/:memory:".'),
     'rule': ('cases = generic component tuples (class, user, password, host, port, db), sqlite file names, raw URI '
              'strings (generated, and single-character mutations of built URIs), port texts; distinct = distinct tuple / '
              'string; non-trivial = contains a character outside the unreserved set or a port'),
@@ -228,13 +227,26 @@ ODD_HOSTS = ['Host', 'DB.Example.COM', '::1', '[::1]', 'fe80::1', '2001:db8::ff0
              'a:80', 'h:', ':', '@', '%41', 'A%41b']
 
 
+IP6_PIECES = ['1', 'a', 'F', 'g', ':', '::', ':', '.', '%', '0', '255', '256', '01', 'v', '1.2.3.4', 'ffff', '12345', 'db8', '2001', '%eth0', 'v1.x']
+IP6_GOOD = ['::1', '::', '1::', '2001:db8::ff00:42:8329', 'fe80::1%eth0', '::ffff:192.0.2.1', '1:2:3:4:5:6:7:8', '1:2:3:4:5:6:1.2.3.4',
+            '::1:2:3:4:5:6:7', '1:2:3:4:5:6:7::', 'abcd:ef01:2345:6789:abcd:ef01:2345:6789', 'fe80::a%1', '0:0:0:0:0:0:0:0', '::0.0.0.0']
+
+
+def gen_ip6ish(rng):
+    if rng.random() < 0.5:
+        return rng.choice(IP6_GOOD)
+    return ''.join(rng.choice(IP6_PIECES) for _ in range(rng.randint(1, 9)))
+
+
 def gen_host(rng):
     r = rng.random()
     if r < 0.12:
         return rng.choice([None, ''])
-    if r < 0.62:
+    if r < 0.55:
         return rng.choice(GOOD_HOSTS)
-    if r < 0.82:
+    if r < 0.70:
+        return gen_ip6ish(rng)
+    if r < 0.85:
         return rng.choice(ODD_HOSTS)
     return rstr(rng, 6, pct=0.05)
 
@@ -292,7 +304,13 @@ def gen_netloc(rng):
             parts.append(':')
             parts.append(rng.choice(['pw', 'p%40ss', '', 'a:b', 'p@ss']) if rng.random() < 0.5 else rstr(rng, 5, pct=0.3))
         parts.append('@')
-    parts.append(rng.choice(GOOD_HOSTS + ODD_HOSTS + ['', '']) if rng.random() < 0.8 else rstr(rng, 5))
+    r = rng.random()
+    if r < 0.15:
+        parts.append('[' + gen_ip6ish(rng) + ']' + rng.choice(['', '', '', 'x', ']', '[']))
+    elif r < 0.8:
+        parts.append(rng.choice(GOOD_HOSTS + ODD_HOSTS + ['', '']))
+    else:
+        parts.append(rstr(rng, 5))
     if rng.random() < 0.5:
         parts.append(':')
         parts.append(rng.choice(PORT_TEXTS) if rng.random() < 0.7 else str(rng.randint(0, 70000)))
@@ -413,7 +431,7 @@ def check_generic_oracle(ctx, case, uri, err):
     if port == 0:
         port = None        # 0 is this library's "unspecified port" (uri() omits a falsy port, `host:0` parses to None)
     in_range = port is None or (isinstance(port, int) and 1 <= port <= 65535)
-    if port is not None and not in_range and host:
+    if port is not None and not in_range:
         if text != 'err ValueError':
             ctx.oracle_fail('C18:bad-port-not-rejected:%s' % port,
                             'port %r: the reported URI %s is accepted by _parseURI as %s' % (port, short(uri), text), case)
@@ -426,9 +444,6 @@ def check_generic_oracle(ctx, case, uri, err):
     if ok:
         return 'ok-' + hc
     what = 'parse(build(%r)): reported URI %s parses to %s, expected %r' % (generic_desc(case), short(uri, 100), text if t is None else got, want)
-    if not host and port is not None and got is not None and got[:3] == want[:3] and got[4] == want[4] and got[3] is None:
-        ctx.oracle_fail(KEY_PORTNOHOST, what, case)
-        return 'fail-port-without-host'
     ctx.oracle_fail('C18:generic:%s' % json.dumps([case.get(k) for k in ('scheme', 'user', 'pw', 'host', 'port', 'db')],
                                                   ensure_ascii=True), what, case)
     return 'fail'
@@ -525,7 +540,7 @@ class _Once(object):
         return getattr(self._ctx, name)
 
     def oracle_fail(self, key, what, case):
-        if key in (KEY_PORTNOHOST, KEY_SLASHMEM):
+        if key in (KEY_SLASHMEM,):
             if key in self._seen:
                 self._ctx.count('finding-repeat:' + key)
                 return
@@ -540,8 +555,22 @@ def run(ctx):
     corpus = load_corpus()
     todo = []          # (stream, case description, request line, implementation answer, comparable)
 
+    def flush():
+        if not todo:
+            return
+        outs = ctx.model([t[2] for t in todo])
+        if outs is not None:
+            for (stream, desc, line, impl, comparable), m in zip(todo, outs):
+                if not comparable:
+                    ctx.count('model:skipped(non-ASCII netloc, NFKC/lower not identity)')
+                    continue
+                ctx.compare(stream, desc, m, impl)
+        del todo[:]
+
     def add(stream, desc, line, impl, comparable=True):
         todo.append((stream, desc, line, impl, comparable))
+        if len(todo) >= 40000:
+            flush()
 
     def parse_and_compare(stream, uri, desc):
         text, t = real_parse(uri)
@@ -549,7 +578,7 @@ def run(ctx):
         return text, t
 
     # ---- generic builder ---------------------------------------------------------------------
-    n_generic = ctx.budget(6000, 300000)
+    n_generic = ctx.budget(15000, 300000)
     generic_cases = [dict(c) for c in corpus.get('generic', [])]
     generic_cases += [gen_generic(rng) for _ in range(n_generic)]
     built = []
@@ -572,7 +601,7 @@ def run(ctx):
                     'quote %s %s' % (enc(safe), enc(comp)), real_quote(comp, safe))
 
     # ---- sqlite builder ----------------------------------------------------------------------
-    n_sqlite = ctx.budget(2500, 100000)
+    n_sqlite = ctx.budget(6000, 100000)
     files = list(corpus.get('sqlite', [])) + [gen_filename(rng) for _ in range(n_sqlite)]
     for fn in files:
         uri, err = real_suri(fn)
@@ -651,10 +680,10 @@ def run(ctx):
 
     # ---- hostile raw URIs ---------------------------------------------------------------------
     raws = list(corpus.get('raw', []))
-    n_raw = ctx.budget(5000, 250000)
+    n_raw = ctx.budget(15000, 250000)
     for _ in range(n_raw):
         if built and rng.random() < 0.35:
-            raws.append(mutate(rng, rng.choice(built)))
+            raws.append(mutate(rng, built[rng.randint(0, len(built) - 1)]))
         else:
             raws.append(gen_raw(rng))
     for u in raws:
@@ -668,7 +697,7 @@ def run(ctx):
                 'sopen ' + enc(u), otext, parse_comparable(u))
 
     # ---- quote / unquote on their own ---------------------------------------------------------
-    for _ in range(ctx.budget(1500, 60000)):
+    for _ in range(ctx.budget(4000, 60000)):
         s = rstr(rng, 10, pct=0.3)
         safe = rng.choice(['', '/', '/', ':/', "~!$&'()*+,;=:@", '\xe9/', 'a%', ' '])
         q = real_quote(s, safe)
@@ -682,14 +711,8 @@ def run(ctx):
                                 {'string': s, 'safe': safe})
         ctx.case(('q', s, safe), nontrivial=nontrivial_str(s), kind='quote')
 
-    # ---- model answers ------------------------------------------------------------------------
-    outs = ctx.model([t[2] for t in todo])
-    if outs is not None:
-        for (stream, desc, line, impl, comparable), m in zip(todo, outs):
-            if not comparable:
-                ctx.count('model:skipped(non-ASCII netloc, NFKC/lower not identity)')
-                continue
-            ctx.compare(stream, desc, m, impl)
+    # ---- model answers for what is left ------------------------------------------------------
+    flush()
 
 
 def replay(case):
